@@ -60,7 +60,14 @@ try:
     if rc != 0:
         res["apply_error"] = out
     else:
-        rc, out = sh("go build ./... && go vet ./... ; go build ./... && go test -count=1 ./...", cwd=WT)
+        rc, out = sh("go build ./... && go test -count=1 ./...", cwd=WT)
+        for _ in range(2):
+            if rc == 0:
+                break
+            # the suite has known timing-flaky tests (util/osutil signal tests, tasklane TestPushTask under load): retry
+            failed = [l.split()[1] for l in out.split("\n") if l.startswith("FAIL\t")]
+            rc, out2 = sh("go test -count=1 " + " ".join("./" + f.replace("github.com/whoisnian/glb/", "") for f in failed) if failed else "go test -count=1 ./...", cwd=WT)
+            out += "\n--- retry ---\n" + out2
         res["tests_pass_with_patch"] = rc == 0
         if rc != 0:
             res["test_output"] = out[-1500:]
